@@ -112,6 +112,11 @@ fn eq(a: &Raw, b: &Raw) -> bool {
 /// (Runnable), 3 pending recv (Blocked iff the channel is empty -- the
 /// coupling with the reference "blocked receivers" set).
 fn world(acting: usize, k: usize) -> (crate::rt::Execution, Channel, [u8; 3], [Raw; 2], Raw) {
+    world_roles(acting, k, None)
+}
+
+/// `fixed`: concrete roles of the three threads (the acting thread's entry is ignored).
+fn world_roles(acting: usize, k: usize, fixed: Option<[u8; 3]>) -> (crate::rt::Execution, Channel, [u8; 3], [Raw; 2], Raw) {
     let mut e = ev::mk_exec(3, 1, None);
     tv::activate(&mut e.threads, acting);
     let mut st = blank_state();
@@ -136,8 +141,14 @@ fn world(acting: usize, k: usize) -> (crate::rt::Execution, Channel, [u8; 3], [R
         let c: Raw = kani::any();
         tv::th(&mut e.threads, t).causality = vv(c);
         if t != acting {
-            let role: u8 = kani::any();
-            kani::assume(role <= 3);
+            let role: u8 = match fixed {
+                Some(f) => f[t],
+                None => {
+                    let r: u8 = kani::any();
+                    kani::assume(r <= 3);
+                    r
+                }
+            };
             roles[t] = role;
             let (code, opn) = match role {
                 0 => (0, None),
@@ -161,8 +172,8 @@ fn clock(e: &crate::rt::Execution, t: usize) -> Raw {
     vv_raw(&tv::th_ref(&e.threads, t).causality)
 }
 
-fn send_case(acting: usize, k: usize) {
-    let (mut e, ch, roles, msgs, ss) = world(acting, k);
+fn send_case(acting: usize, k: usize, fixed: Option<[u8; 3]>) {
+    let (mut e, ch, roles, msgs, ss) = world_roles(acting, k, fixed);
     let cur = clock(&e, acting);
     let others = [clock(&e, 0), clock(&e, 1), clock(&e, 2)];
     sched::enter(&mut e, || ch.send(Location::disabled()));
@@ -194,8 +205,12 @@ fn send_case(acting: usize, k: usize) {
         }
         t += 1;
     }
-    kani::cover!(roles[(acting + 1) % 3] == 2 && roles[(acting + 2) % 3] == 3, "another sender pending and a receiver waiting");
-    kani::cover!(roles[(acting + 1) % 3] == 3 && roles[(acting + 2) % 3] == 3, "two receivers waiting");
+    if fixed.is_none() {
+        kani::cover!(roles[(acting + 1) % 3] == 2 && roles[(acting + 2) % 3] == 3, "another sender pending and a receiver waiting");
+        kani::cover!(roles[(acting + 1) % 3] == 3 && roles[(acting + 2) % 3] == 3, "two receivers waiting");
+    } else {
+        kani::cover!(!le(&cur, &ss), "the send adds something to the channel's view");
+    }
     std::mem::forget(e);
 }
 
@@ -203,14 +218,21 @@ vharness! {
     /// @prop C09,C05,C10 @tier thorough @mode fast @cost 4 @funcs Channel::send,Ref::branch_action,rt::branch,Execution::schedule,Synchronize::sync_store @bounds 3 threads, 1 empty channel, the other two threads symbolic (unrelated / blocked elsewhere / pending send / pending recv), all clock values, sender = thread 1
     /// send on an empty channel: count becomes 1, the message is stamped with the sender's view, every receiver blocked on the channel becomes runnable (whatever other threads are pending on it), nobody else changes.
     #[cfg_attr(kani, kani::unwind(8))]
-    fn channel_send_empty_t1() { send_case(1, 0) }
+    fn channel_send_empty_t1() { send_case(1, 0, None) }
 }
 
 vharness! {
     /// @prop C09,C10 @tier thorough @mode fast @cost 3 @funcs Channel::send @bounds as channel_send_empty_t1 with one message already queued, sender = thread 0
     /// send on a non-empty channel appends behind the queued message; the stamp accumulates earlier sends (FIFO hand-over order).
     #[cfg_attr(kani, kani::unwind(8))]
-    fn channel_send_nonempty_t0() { send_case(0, 1) }
+    fn channel_send_nonempty_t0() { send_case(0, 1, None) }
+}
+
+vharness! {
+    /// @prop C09,C05 @tier thorough @mode fast @cost 3 @timeout 3600 @funcs Channel::send @bounds 3 threads, empty channel, sender = thread 1, thread 0 has a pending send on the channel, thread 2 is a receiver blocked on it (concrete roles), all clock values
+    /// send on an empty channel wakes the blocked receiver even when a lower-numbered thread is also pending on the channel (as a sender).
+    #[cfg_attr(kani, kani::unwind(8))]
+    fn channel_send_wakes_receiver_behind_sender() { send_case(1, 0, Some([2, 0, 3])) }
 }
 
 fn recv_case(acting: usize, k: usize) {
